@@ -939,6 +939,27 @@ func c05CheckSnapshot(c *Ctx, m *c05Model, start, v cty.Value, cands []*c05Cand,
 			}
 		}
 	}
+	// another value of which as little is known: an unknown of the same type that may be null too and whose range lies
+	// elsewhere. Both may turn out to be null, and any two nulls are equal - the two cannot be known to differ.
+	if m.null == 0 && !m.known && !m.startNull && !m.dynamic && !uv.IsKnown() {
+		var far cty.Value
+		switch m.t.K {
+		case KNumber:
+			far = cty.UnknownVal(cty.Number).Refine().NumberRangeLowerBound(cty.NumberIntVal(1000000), true).NewValue()
+		case KString:
+			far = cty.UnknownVal(cty.String).Refine().StringPrefixFull("\uf8ff-elsewhere").NewValue()
+		case KList, KSet, KMap:
+			far = cty.UnknownVal(m.t.Cty()).Refine().CollectionLengthLowerBound(1000).NewValue()
+		}
+		if far != cty.NilVal {
+			for _, eq := range []cty.Value{uv.Equals(far), far.Equals(uv)} {
+				if eq.IsKnown() && eq.False() {
+					c.Fail("C05", "equals-false-admitted", "equals-false:both-may-be-null", "after %s the refined unknown and %s may both turn out to be null, yet Equals is known to be False\nmodel: %s", last, safeGoString(far), m.describe())
+				}
+			}
+			c.Probe("c05.two-nullable-unknowns")
+		}
+	}
 }
 
 // c05CheckFixedRange judges what Range() reports for a value whose admitted set is fixed by the value itself:
